@@ -35,7 +35,7 @@ DigestOf(cls, e) == CASE cls = "right256" -> "sha256:" \o e.canon_sha256
                       [] OTHER -> Wrong
 Names(dig, s256, s512) == dig = "sha256:" \o s256 \/ dig = "sha512:" \o s512
 
-Sc(e) == [kind |-> e.kind, variant |-> e.variant, desc |-> e.desc, ref |-> e.ref, hdr |-> e.hdr, hdrmt |-> e.hdrmt, via |-> e.via]
+Sc(e) == [kind |-> e.kind, variant |-> e.variant, desc |-> e.desc, ref |-> e.ref, hdr |-> e.hdr, hdrmt |-> e.hdrmt, via |-> e.via, form |-> e.form]
 FetchBad(e) ==
   LET x == Sc(e) IN
   IF x \notin FetchScenarios THEN "tooling:fetch-scenario"
